@@ -178,3 +178,12 @@ def r15_4_aware_from_local_fields(ctx: Ctx) -> RuleResult:
         else:
             rr.ok({"fn": q, "bridge": must})
     return rr
+
+
+@rule("C15")
+def r15_7_year_kinds(ctx: Ctx) -> RuleResult:
+    from ..yearkinds import check_year_kinds
+
+    rr = RuleResult("R15.7", "absolute years and years-of-era are never interchanged (stdlib dates take the absolute proleptic year, which the range guard then bounds)", min_instances=30)
+    check_year_kinds(ctx, rr)
+    return rr
